@@ -5027,8 +5027,9 @@ class Entity(object, metaclass=EntityMeta):
                 # collections already reflect the assignment, the stored value must not re-link the object
                 attr.db_update_reverse(obj, old_dbval, new_dbval)
             obj._dbvals_[attr] = new_dbval
-
-        obj._vals_.update(new_vals)
+            # value and database value are stored together: if linking a later attribute fails, the object
+            # stays partly loaded but readable, not with database values that have no values
+            if attr in new_vals: obj._vals_[attr] = new_vals[attr]
     def _delete_(obj, undo_funcs=None, deleted_by=None):
         status = obj._status_
         if status in del_statuses: return
